@@ -292,6 +292,14 @@ class Interp:
         v = {'none': None, 'float': 1.5, 'bytes': b'x', 'list': [], 'int': 7, 'bool': True}[t['v']]
         return v, v
 
+    def op_pregexbad(self, t, f):
+        v = {'none': None, 'float': 1.5, 'bytes': b'x', 'list': [], 'int': 7, 'bool': True}[t['v']]
+        esc = t.get('escape', True)
+
+        def sh():
+            raise S.Expect(S.T_TYPE)
+        return self.call('Pregex', 'c', lambda: Pregex(v, escape=esc), sh, [(v, v)])
+
     def op_cls(self, t, f):
         n = t['n']
         kw = dict(t.get('kw', {}))
